@@ -10,7 +10,8 @@ Sites == {"literal", "shl", "shl-lhs", "shr", "div", "div-lhs", "mod", "mul", "a
           "seg-name", "bank-name", "useseg-name", "test-name", "nested-call", "macro-recursion", "macro-mutual",
           "shadow-segments", "interp-number", "text-number", "if-string",
           "seg-redefine", "seg-redefine-moved", "bank-redefine",       \* a definition repeated after code was emitted to it
-          "seg-target-low", "seg-target-high", "loop-nested"}
+          "seg-target-low", "seg-target-high", "loop-nested",
+          "macro-recursion-untaken", "macro-mutual-untaken"}      \* recursion only through a branch that is not taken (the analysis mode visits it)
 NumericSites == {"literal", "shl", "shl-lhs", "shr", "div", "div-lhs", "mod", "mul", "add", "sub", "neg",
                  "align", "loop", "setpc", "seg-start", "seg-pc", "bank-size", "bank-fill", "byte", "branch", "loop-nested"}
 (* argument classes (rendered by the harness): zero, minus one, one, 63, 64, 65, 2^16 (the size of the address space), 2^31, 2^63-1, -2^63 (as 0 - 2^63-1 - 1),
